@@ -1,6 +1,7 @@
 """C14 - TIME, MeasureShift, rests and PlayFrom put events at the documented ticks.
 Theorems: props/C14.v (value of TIME(m:b:t) / TIME(n) and the TIME arm; state and meta event after TimeSignature; the
-time-translation law of exec() for every program without absolute-time commands - loops, Sub, tuplets, chords included;
+time-translation law of exec() for every program without absolute-time commands - loops, Sub, tuplets, chords included,
+and (C14_rsv_*, C14_*_reservations; proofs/ShiftRsvP.v) every reservation command: ramps, v.onTime, x.onNote, x.Random;
 Track::play_from on arbitrary event lists: dropped / kept / re-timed / restored / order before and after the stable sort,
 "latest" = latest in time in the pipeline).
 Correspondence: `compile_core` (model) vs `compile_lex` (implementation) on every source generated here: core-language
@@ -31,6 +32,11 @@ THEOREMS = ["C14_time_formula", "C14_time_ticks", "C14_beat_exact", "C14_beat_de
             "C14_playfrom_arms", "C14_timesig_state", "C14_time_after_signature",
             "C14_rest_is_shift", "C14_shifted_means", "C14_step_shift", "C14_exec_respects", "C14_shift_law", "C14_rest_shift",
             "C14_rest_shift_fold",
+            "C14_rshift_means", "C14_rsv_cc_ramp_shift", "C14_rsv_pb_ramp_shift", "C14_rsv_ramp_events", "C14_rsv_v_on_time_shift",
+            "C14_rsv_on_note_shift", "C14_rsv_note_values_shift", "C14_rsv_cc_on_note_shift", "C14_rsv_setters_shift",
+            "C14_shifted_r_means", "C14_rsv_set_start_means", "C14_shift_r_extends", "C14_step_shift_reservations",
+            "C14_exec_respects_reservations", "C14_shift_law_reservations", "C14_rest_shift_reservations",
+            "C14_rest_shift_fold_reservations",
             "C14_playfrom", "C14_playfrom_notes", "C14_playfrom_kept", "C14_playfrom_early", "C14_playfrom_restored_cc",
             "C14_playfrom_restored_cc_shape", "C14_playfrom_restored_voice", "C14_playfrom_restored_voice_shape", "C14_playfrom_channel",
             "C14_latest_cc_means", "C14_latest_cc_none", "C14_latest_voice_means", "C14_latest_voice_none", "C14_playfrom_latest_in_time",
@@ -38,7 +44,8 @@ THEOREMS = ["C14_time_formula", "C14_time_ticks", "C14_beat_exact", "C14_beat_de
 DRIVERS = ["core"]
 RULE = ("tick: tb in 48/96/480/960 (or default), n in 2..64, d in 2/4/8/16, shift -2..5, m 1..40, b 1..n+2, t 0..2*beat, five spellings; "
         "shift: 1..6 parts of core-language blocks (notes, rests, numbered notes, l/o/v/q/t, chords, tuplets, Sub, loops) and "
-        "program / controller / tempo / time-signature commands (also inside Sub), rest lengths 1..32, dotted, %n, tied; "
+        "program / controller / tempo / time-signature commands (also inside Sub), controller / bend ramps and the other "
+        "reservation commands (RAMP_CMDS, RSV_CMDS), rest lengths 1..32, dotted, %n, tied; "
         "cut: the same programs on 1..3 tracks, point = every kind of position (between any two parts, exact note starts, "
         "one tick before / after, 0, beyond the end), controller writes inside Sub{} later in time than following ones, "
         "tracks that change their channel (CH(n) between parts, the same controller / the program set on two or three channels "
@@ -49,7 +56,10 @@ TRUSTED = ["SMF container / track decoding by the extracted specification decode
            "slice::sort_by is stable (C02_stable_sort_unique)"]
 ASSUMES = ["shift law and oracle: no slurred notes (the pitch-bend-range announcement of a slur is placed at max(0, first - 1), "
            "which is not translation invariant), no TIME / PlayFrom / `?` / TrackSync / track change / macro call inside P, "
-           "no negative note timing (a start before tick 0 is written at tick 0)",
+           "no negative note timing (a start before tick 0 is written at tick 0) and no negative gate (q.Random with q near 0: "
+           "the note-off of a note at tick 0 would lie before tick 0): the law of the interpreter's events "
+           "(C14_rest_shift_reservations) is unconditional, the file clamps event times at 0 "
+           "(C14_example_negative_timing_file_refuted)",
            "cut oracle: controller numbers 0..127; values as the writer sends them (clamped to 0..127); pitch bend ignored; "
            "note-offs compared only when no two notes of one pitch overlap in the track",
            "tick oracle: time bases divisible by 4 (48, 96, 480, 960, 100, 52, 60, 200, 1000), so that 4*tb/d is an integer for d = 2, 4, 8, 16"]
@@ -142,6 +152,16 @@ RAMP_CMDS = ["EP.onTime(0,127,!8)", "M.onTime(0,127,48)", "y7.onTime(100,20,!4)"
              "p.onTime(0,127,!4)", "EP.T(127,0,30,0,64,!8)"]
 
 
+# the other reservation commands (C14_rest_shift_reservations): values per note / per tick of a v.onTime ramp, controller
+# events at every note start, random widths - none of them reads an absolute tick.  No negative timing (t.Random, t.onNote
+# with negative values) and no q.Random (around q0 the drawn gate is negative: the note-off lies BEFORE its note-on, for a
+# note at tick 0 before tick 0): an event before tick 0 is written at tick 0 (ASSUMES)
+RSV_CMDS = ["v.onTime(40,100,!2)", "v.onTime(127,10,!4,10,90,!2)", "v.onNote(100,60,80)", "v.onCycle(90,70)", "q.onNote(50,90)",
+            "q.onCycle(100,40)", "o.onNote(4,5)", "o.onCycle(5,6,4)", "t.onNote(5,0,12)", "M.onNoteWave(0,127,!8)",
+            "EP.onNoteWave(127,60,!4)", "y10.onNote(0,64,127)", "y10.onNote(20,100)", "v.Random(6)",
+            "o.Random(2)", "Cresc=4,20,100", "Decresc=2,100,30", "M.Frequency(5)"]
+
+
 def gen_parts(rng, n, events=True, chans=False, ramps=False):
     """chans: the track changes its channel between parts (CH(n)), often followed by a setting on the new channel"""
     parts = []
@@ -151,7 +171,7 @@ def gen_parts(rng, n, events=True, chans=False, ramps=False):
             parts.append("CH(%d) " % rng.choice(CHANS) + (rng.choice(CC_CMDS) + " " if rng.random() < 0.6 else ""))
         elif ramps and k < 0.12:
             # controller / bend ramps: their events are counted from the ramp's start, wherever that falls
-            parts.append(rng.choice(RAMP_CMDS) + " ")
+            parts.append(rng.choice(RAMP_CMDS if rng.random() < 0.5 else RSV_CMDS) + " ")
         elif events and k < 0.30:
             parts.append(rng.choice(EV_CMDS) + " ")
         elif events and k < 0.40:
